@@ -43,6 +43,23 @@ class MemFn:
         self.usr, self.name = usr, name
 
 
+class LRef:
+    """a C++ reference to a scalar that lives in a vector element or in a field: reads and writes go through"""
+    __slots__ = ('box', 'key')
+
+    def __init__(self, box, key):
+        self.box, self.key = box, key
+
+    def get(self):
+        return self.box.items[self.key] if isinstance(self.box, Vec) else self.box[self.key]
+
+    def set(self, v):
+        if isinstance(self.box, Vec):
+            self.box.items[self.key] = v
+        else:
+            self.box[self.key] = v
+
+
 class Fault(Exception):
     """the interpreted code itself misbehaves (out-of-range access, failed assertion): a finding, not an analysis failure"""
 
@@ -74,6 +91,10 @@ class OMachine(Machine):
         k = e['k']
         if k == 'This':
             return self.this
+        if k == 'Ref' and e.get('d') in ('local', 'param'):
+            v = self.env.get(e.get('id'), self)
+            if isinstance(v, LRef):
+                return v.get()
         if k == 'Member':
             tgt = self.target_obj(e)
             m = e['m']
@@ -232,9 +253,26 @@ class OMachine(Machine):
                 mt = _re.search(r'\[(\d+)\]\s*$', v.get('ty') or '')
                 if mt and v.get('init') is None and v['id'] not in self.env:
                     self.env[v['id']] = Vec(['UNINIT'] * int(mt.group(1)))        # a local array; its name decays to a pointer to the first element
+        if k == 'Decl':
+            done = False
+            for v in s['vars']:
+                ty = (v.get('ty') or '').rstrip()
+                if v.get('init') is not None and ty.endswith('&') and not ty.endswith('&&'):
+                    try:
+                        lr = self.lref(v['init'])
+                    except Unsupported:
+                        lr = None
+                    if isinstance(lr, LRef):
+                        self.env[v['id']] = lr
+                        done = True
+                    elif isinstance(lr, tuple):
+                        self.env[v['id']] = lr[1]
+                        done = True
+            if done and len(s['vars']) == 1:
+                return
         if k == 'Decl' and getattr(self.world, 'destructor', None) is not None:
             for v in s['vars']:
-                if v.get('init') is not None:
+                if v.get('init') is not None and not isinstance(self.env.get(v['id']), LRef):
                     val = self.ev(v['init'])
                     self.env[v['id']] = val
                     if isinstance(val, Obj) and not (v.get('ty') or '').rstrip().endswith(('&', '*')) and self.world.destructor(val) is not None:
@@ -245,9 +283,39 @@ class OMachine(Machine):
         return super().exec(s)
 
     # ---------------------------------------------------------------- stores
+    def lref(self, init):
+        """an LRef when the initialiser of a reference designates a scalar element of a vector or a scalar field of an object; else None"""
+        t = strip_casts(init)
+        if t is None:
+            return None
+        if (t.get('k') == 'OpCall' and t.get('op') == '[]' and len(t.get('args', [])) == 2) or t.get('k') == 'Index':
+            b, i = (t['args'][0], t['args'][1]) if t.get('k') == 'OpCall' else (t['b'], t['i'])
+            vec, idx = self.ev(b), self.ev(i)
+            if isinstance(vec, It):
+                vec, idx = vec.vec, vec.i + int(idx)
+            if isinstance(vec, Vec) and isinstance(idx, (int, float)):
+                idx = int(idx)
+                if not (0 <= idx < len(vec.items)):
+                    raise Fault('reference to position %d of a vector of %d' % (idx, len(vec.items)))
+                if isinstance(vec.items[idx], (int, float, str, bool)) or vec.items[idx] is None:
+                    return LRef(vec, idx)
+                return ('VALUE', vec.items[idx])
+            return None
+        if t.get('k') == 'Member' and t.get('m'):
+            tgt = self.target_obj(t)
+            if isinstance(tgt, Obj) and t['m'] in tgt.fields:
+                if isinstance(tgt.fields[t['m']], (int, float, str, bool)) or tgt.fields[t['m']] is None:
+                    return LRef(tgt.fields, t['m'])
+                return ('VALUE', tgt.fields[t['m']])
+        return None
+
     def assign(self, t, v):
         k = t.get('k')
         if k == 'Ref' and t.get('d') in ('local', 'param'):
+            cur = self.env.get(t['id'])
+            if isinstance(cur, LRef):
+                cur.set(v)
+                return
             self.env[t['id']] = v
             return
         if k == 'Member':
